@@ -130,9 +130,15 @@ fn vectored_iter<'a, T: BinaryArrayType<'a> + 'a>(
     a_v: &'a dyn AnyDictionaryArray,
 ) -> impl Iterator<Item = Option<&'a [u8]>> + 'a {
     let nulls = a_v.nulls();
-    let keys = a_v.normalized_keys();
+    // a dictionary without values has only null keys (`normalized_keys` requires values)
+    let values_empty = a.len() == 0;
+    let keys = if values_empty {
+        vec![0; a_v.len()]
+    } else {
+        a_v.normalized_keys()
+    };
     keys.into_iter().enumerate().map(move |(idx, key)| {
-        if nulls.is_some_and(|n| n.is_null(idx)) || a.is_null(key) {
+        if values_empty || nulls.is_some_and(|n| n.is_null(idx)) || a.is_null(key) {
             return None;
         }
         Some(a.value(key))
